@@ -164,6 +164,12 @@ def constructed(rng):
                     dd(b, q, c, s)
             out.append("%s * %s i64:-1" % (rng.choice(("div", "cdiv")), G.fD(c, s)))
             out.append("%s * %s u8:2" % (rng.choice(("div", "cdiv")), G.fD(c, s)))
+    # 6c. dividends at floor(T / 10^k) +- 2 for every primitive-type maximum T, scaled by exactly 10^k (k = 18 + q - p)
+    for v, k in G.type_scaled_thresholds():
+        for q in range(19):
+            p = 18 + q - k
+            if 0 <= p <= 18 and rng.random() < 0.5:
+                dd(v, p, rng.choice((1, -1, 3, 7, rng.randrange(1, 10 ** 9), rng.randrange(1, M))), q)
     # 7. integer operands
     for ty in OP_INT_TYPES:
         lo, hi = INT_TYPES[ty]
@@ -195,6 +201,10 @@ def gen(rng, tier, shard, batch):
         # the rare corners of the multi-word division, constructed algebraically (vf/knuth.py)
         reqs += K.api_corner_requests(rng, 4 if tier == "quick" else 10, G.fD)
         reqs += K.hi_eq_divisor_requests(rng, 4 if tier == "quick" else 10, G.fD)
+        # scaled dividend whose top 64-bit word is a multiple of the (64-bit) divisor and whose next word is below it
+        for op, l, r, n in K.api_small_divisor_top_word(rng, 4 if tier == "quick" else 10, G.fD, 18):
+            if op == "divr":
+                reqs.append("%s %s %s %s" % (rng.choice(("div", "cdiv")), rng.choice(("vv", "*", "rr")), l, r))
         if batch == 0:
             for a, p, b, q in C.small_grid(tier, shard, E.NCPU):
                 reqs.append("div vv %s %s" % (G.fD(a, p), G.fD(b, q)))
